@@ -28,7 +28,9 @@ RULE = ('all if/elif/else chains of 1..N conditions (N=4 quick, 5 thorough) '
         'undefined name, expression naming a probe uncalled} x all truth '
         'assignments x else present/absent x every body re-reference form '
         '(none, var, nested if, let, in, nested-in-let) of every condition '
-        'index; plus unless and call forms; each printed in one of the three '
+        'index; plus unless and call forms; plus 2-3 sibling conditionals / '
+        'calls testing the same name (plain and inside dtml-in); each '
+        'printed in one of the three '
         'syntaxes (all three in thorough).  The reference model predicts '
         'output and the ordered trace of invoked callables; a case is '
         'non-trivial when at least one probe is invoked.')
@@ -113,6 +115,18 @@ def cases(tier):
             for s in syntaxes:
                 yield {'form': 'call', 'kinds': [kind], 'truth': [truth],
                        'else': 0, 'reref': None, 'syntax': s}
+    # sibling conditionals / calls testing the same name: each one has its
+    # own cache, so each evaluates the name again (once)
+    sib = ('if', 'ifelse', 'unless', 'call', 'ifvar')
+    for n in (2, 3):
+        for tags in itertools.product(sib, repeat=n):
+            for truth in (0, 1):
+                for nest in (0, 1):
+                    for s in syntaxes:
+                        yield {'form': 'siblings', 'tags': list(tags),
+                               'kinds': ['name'], 'truth': [truth],
+                               'else': 0, 'reref': None, 'nest': nest,
+                               'syntax': s}
 
 
 def build(case):
@@ -130,6 +144,25 @@ def build(case):
                     for i, k in enumerate(kinds)]
         els = ([T('E')] + extra) if case['else'] else None
         nodes = [T('<'), ['if', branches, els], T('>')]
+    elif case['form'] == 'siblings':
+        c = N('c0')
+        parts = []
+        for i, tg in enumerate(case['tags']):
+            if tg == 'if':
+                parts.append(['if', [[c, [T('I%d' % i)]]], None])
+            elif tg == 'ifelse':
+                parts.append(['if', [[c, [T('I%d' % i)]]], [T('E%d' % i)]])
+            elif tg == 'ifvar':
+                parts.append(['if', [[c, [T('V'), ['var', c, []]]]],
+                              [T('e')]])
+            elif tg == 'unless':
+                parts.append(['unless', c, [T('U%d' % i)]])
+            else:
+                parts.append(['call', c])
+            parts.append(T('|'))
+        if case.get('nest'):
+            parts = [['in', N('s2'), parts, None, []]]
+        nodes = [T('<')] + parts + [T('>')]
     elif case['form'] == 'unless':
         nodes = [T('<'), ['unless', cond_ref(kinds[0], 0), [T('U')] + extra],
                  T('>')]
